@@ -37,6 +37,7 @@ class Cfg:
     # t(config_from_dict addressed through a tag shared by all nodes: one priority for all, is_sequential must survive)
     routes: str = "d"
     nested: bool = False  # one node may live in a nested DAG (its attributes must survive the embedding)
+    warmup: bool = False  # with a configuration route: the DAG may have been called once before it is reconfigured
     profiling: bool = False  # also explore cfg.TAWAZI_PROFILE_ALL_NODES = True
     mc_fixed: int = 0  # 0: symbolic
     distinct_cp: bool = False  # assume pairwise distinct compound priorities; the C06 monitor is then strict
@@ -60,6 +61,8 @@ class Monitor:
         self.failure_observed = False
         self.world: Optional[E.World] = None
         self.max_inflight = 0
+        self.dispatched_labels: Set[str] = set()
+        self.unknown_dispatch = False
 
     # ------------------------------------------------------------------ helpers
     def chk(self, prop: str, e: Any, msg: str, data: Optional[Dict[str, Any]] = None, known: Any = None) -> None:
@@ -138,8 +141,11 @@ class Monitor:
             self.chk("C05", z3.Not(_zb(s["seq"][label])), "sequential node %s started while %s still running" % (label, others),
                      {"node": label, "running": others})
         # C06: highest compound priority among ready nodes
-        if "C06" in self.on:
+        if "C06" in self.on and not (kind == "async" and (label in self.dispatched_labels or self.unknown_dispatch)):
+            # (an async-thread node is judged when its task is created, see dispatched())
             for j in self.ready():
+                if j in self.dispatched_labels or (self.unknown_dispatch and s["res"][j] == "async-thread"):
+                    continue  # already dispatched as an asyncio task (starts when the scheduler yields)
                 if j != label:
                     self.chk("C06", s["cp"][label] >= s["cp"][j],
                              "node %s started while ready node %s has a greater compound priority" % (label, j),
@@ -166,6 +172,20 @@ class Monitor:
 
     def submitted(self, fut: E.FakeFuture) -> None:
         pass
+
+    def dispatched(self, label: Optional[str]) -> None:
+        """An asyncio task was created for a node: the dispatch decision is taken, the function is entered when the
+        scheduler next yields to the loop.  For "the node that starts is a highest-priority ready node" the decision counts."""
+        if label is None:
+            self.unknown_dispatch = True
+            return
+        s = self.s
+        if "C06" in self.on and label in s["cp"]:
+            for j in self.ready():
+                if j != label and j not in self.dispatched_labels:
+                    self.chk("C06", s["cp"][label] >= s["cp"][j],
+                             "node %s dispatched while ready node %s has a greater compound priority" % (label, j), {"node": label, "ready": j})
+        self.dispatched_labels.add(label)
 
     def pool_submission(self, label: str, n: int) -> None:
         """Real-pool replay: a callable is handed to the pool while n-1 earlier ones are unfinished."""
@@ -243,6 +263,9 @@ class _WorldMonitor:
 
     def submitted(self, fut: E.FakeFuture) -> None:
         self.m.submitted(fut)
+
+    def dispatched(self, label: Optional[str]) -> None:
+        self.m.dispatched(label)
 
     def observed(self, fut: E.FakeFuture) -> None:
         self.m.observed_fut(fut)
@@ -333,16 +356,18 @@ def run_sched(cfg: Cfg, c: Ctx) -> Any:
         c.assume(mc.z == cfg.mc_fixed)
     route = cfg.routes[c.choose(len(cfg.routes), "route")] if len(cfg.routes) > 1 else cfg.routes
     mc0, prio0, seq0 = mc, prio, seq
+    do_warm = bool(cfg.warmup and route in "cpt" and c.choose(2, "warmup"))
     if route != "d":
         mc0 = c.int("mc_at_build")
         c.assume(mc0.z >= 1)
+    sym0 = cfg.sym_prio and not do_warm  # (a warm-up call runs with concrete build-time priorities: no extra forks)
     if route == "c":
-        prio0 = {l: (c.int("p_at_build_" + l) if cfg.sym_prio else 0) for l in labels}
+        prio0 = {l: (c.int("p_at_build_" + l) if sym0 else 0) for l in labels}
         seq0 = {l: False for l in labels}
     elif route == "p":
-        prio0 = {l: (c.int("p_at_build_" + l) if cfg.sym_prio else 0) for l in labels}
+        prio0 = {l: (c.int("p_at_build_" + l) if sym0 else 0) for l in labels}
     elif route == "t":
-        prio0 = {l: (c.int("p_at_build_" + l) if cfg.sym_prio else 0) for l in labels}
+        prio0 = {l: (c.int("p_at_build_" + l) if sym0 else 0) for l in labels}
         shared = c.int("p_shared") if cfg.sym_prio else 0
         prio = {l: shared for l in labels}
     wrapped: Optional[str] = None
@@ -397,9 +422,13 @@ def run_sched(cfg: Cfg, c: Ctx) -> Any:
         world = E.World(c, _WorldMonitor(mon))
     mon.world = world
 
+    warm = [False]
+
     # ---- node functions and the DAG, through the public API
     def make_fn(label: str) -> Any:
         def fn(*args: Any, **kwargs: Any) -> Any:
+            if warm[0]:
+                return SymVal(vapp("f_" + label, [lift(a) for a in args]))
             if real_schedule is not None:
                 return world.node_body(label, args, kwargs)
             return mon.node_entered(label, args, kwargs)
@@ -450,6 +479,22 @@ def run_sched(cfg: Cfg, c: Ctx) -> Any:
     describe.__qualname__ = describe.__name__ = "pipe"
     pipe = dag(describe, max_concurrency=mc0, is_async=(flavour == "a"))
     ids = {l: ("sub." + l if l == wrapped else l) for l in labels}  # node ids (a nested node carries the dotted prefix)
+    if do_warm and sel[0] == "whole":
+        # one earlier, unmonitored call under the build-time configuration: whatever it caches must not survive the
+        # reconfiguration below
+        warm[0] = True
+        try:
+            wx = c.val("x_warmup")
+            w0 = E.World(c, None)  # same environment model, no monitors
+            w0.deterministic = True  # every wait finishes everything it waits for: one schedule is enough here
+            with E.Patched(w0):
+                if flavour == "a":
+                    w0.drive(pipe(wx))
+                else:
+                    pipe(wx)
+        finally:
+            warm[0] = False
+        c.cover("w_warmup")
     if route == "a":
         pipe.max_concurrency = mc
     elif route == "c":
@@ -611,7 +656,46 @@ def canonical(trace: List[Any]) -> List[Any]:
     return [list(map(lambda v: list(v) if isinstance(v, tuple) else v, e)) for e in out]
 
 
-def replay_real(cfg: Cfg, record: Dict[str, Any], timeout_s: float = 40.0) -> Dict[str, Any]:
+def replay_real(cfg: Cfg, record: Dict[str, Any], timeout_s: float = 60.0) -> Dict[str, Any]:
+    """Run the recorded path on the real ThreadPoolExecutor / event loop in a process of its own: real worker threads
+    and the solver's reference counting must not share a process with the exploration (a crash or hang there is
+    reported as status 'error' / 'timeout', never as a verdict)."""
+    import json
+    import os
+    import subprocess
+    import sys
+
+    root = os.path.dirname(os.path.dirname(os.path.abspath(__file__)))
+    payload = json.dumps({"cfg": dataclasses.asdict(cfg), "record": {k: record.get(k) for k in ("model", "choices", "notes", "trace", "property")}})
+    try:
+        p = subprocess.run([sys.executable, "-c", "import sys; sys.path.insert(0, %r); from harness.sched import _replay_main; _replay_main()" % root],
+                           input=payload, capture_output=True, text=True, timeout=timeout_s + 30, cwd=root)
+    except subprocess.TimeoutExpired:
+        return {"status": "timeout", "trace": []}
+    for line in reversed(p.stdout.splitlines()):
+        if line.startswith("REPLAY-RESULT "):
+            return json.loads(line[len("REPLAY-RESULT "):])
+    return {"status": "error", "trace": [], "error": "replay process exited with %s: %s" % (p.returncode, (p.stderr or p.stdout)[-300:])}
+
+
+def _replay_main() -> None:
+    import json
+    import sys
+
+    from sx.engine import _jsonable
+
+    d = json.load(sys.stdin)
+    c = d["cfg"]
+    c["monitors"] = tuple(c["monitors"])
+    res = replay_real_inprocess(Cfg(**c), d["record"])
+    print("REPLAY-RESULT " + json.dumps(_jsonable(res)))
+    sys.stdout.flush()
+    import os
+
+    os._exit(0)  # worker threads of an aborted replay must not keep the process alive
+
+
+def replay_real_inprocess(cfg: Cfg, record: Dict[str, Any], timeout_s: float = 40.0) -> Dict[str, Any]:
     """Run the recorded path on the real ThreadPoolExecutor / event loop (see sx/realenv.py)."""
     import functools
     import threading
